@@ -1,5 +1,6 @@
 import WhatIs.Model.Cert
 import WhatIs.Lemmas.Cert
+import WhatIs.Lemmas.San
 /-
   Props/C03.lean — PROPERTY THEOREMS for C03 (X.509 certificate fields are reported faithfully).
   `c` ranges over ALL values of the certificate fields the code reads.
@@ -73,7 +74,28 @@ theorem list_readback_partial (xs : List Bytes) (hx : xs ≠ []) (h : ∀ x ∈ 
 /-- witness: a single dNSName "a, b" and the two names "a", "b" are displayed identically -/
 theorem san_separator_witness : joinCS [sb "a, b"] = joinCS [sb "a", sb "b"] ∧ [sb "a, b"] ≠ [sb "a", sb "b"] := by decide
 
+/-- the regenerated fact: the SANs are taken from the subjectAltName extension itself — every kind of GeneralName, in the
+    order encoded — not from the four lists crypto/x509 keeps (which drop otherName, directoryName and registeredID
+    entries, show an IPv4-mapped IPv6 address as IPv4 and re-serialise URIs: D86) -/
+theorem sans_from_extension : Gen.certSansFromExtension = true := by decide
+
+/-- SANs, FROM THE BYTES: a subjectAltName extension that is the DER SEQUENCE of rfc822Name / dNSName / URI / IPv4
+    entries `gs` is shown as exactly those names, each as it is encoded, in the order encoded — none omitted, none
+    invented, whatever the other certificate fields are -/
+theorem sans_readback (c : CertFields) (gs : List Lemmas.San.GN)
+    (hw : Spec.Der.Wf (.cons 0 16 (gs.map Lemmas.San.gnTlv)))
+    (hc : c.sanExt = some (Spec.Der.enc (.cons 0 16 (gs.map Lemmas.San.gnTlv)))) :
+    sans c = gs.map Lemmas.San.gnText := by
+  unfold sans
+  rw [sans_from_extension, hc]
+  simp only [if_true]
+  exact Lemmas.San.generalNames_enc _ gs hw
+
 -- non-vacuity
+example : San.generalNames (fun _ => []) [0x30, 0x11, 0x82, 0x05, 0x61, 0x2e, 0x62, 0x2e, 0x63, 0x87, 0x04, 10, 0, 0, 1, 0x81, 0x02, 0x78, 0x40] =
+    [sb "a.b.c", sb "10.0.0.1", sb "x@"] := by decide
+example : San.ipv6Text [0, 0, 0, 0, 0, 0, 0, 0, 0, 0, 255, 255, 192, 0, 2, 1] = sb "::ffff:192.0.2.1" ∧
+    San.ipv6Text [0x20, 0x01, 0x0d, 0xb8, 0, 0, 0, 0, 0, 1, 0, 0, 0, 0, 0, 1] = sb "2001:db8::1:0:0:1" := by decide
 example : keyUsageNames 97 = [sb "digitalSignature", sb "certSign", sb "cRLSign"] := by decide
 example : showsPathLen { (default : CertFields) with bcValid := true, isCA := true, maxPathLen := -1 } = false := by decide
 example : showsPathLen { (default : CertFields) with bcValid := true, isCA := true, maxPathLen := 0, maxPathLenZero := true } = true := by decide
